@@ -208,3 +208,153 @@ def add_var_model(P, R):
                     f'add_var model ({n_models} requests): no '
                     f'`{k}` case', nontrivial=(k in ('default',
                                                      'terminal')))
+
+
+def _manager_state(vars_, nodes):
+    """Tables of a small manager: `nodes` = {u: (level, low, high)}."""
+    n = len(vars_)
+    succ = {1: (n, None, None)}
+    succ.update(nodes)
+    ref = {u: 0 for u in succ}
+    ref[1] = 1
+    for u, (i, v, w) in nodes.items():
+        ref[abs(v)] += 1
+        ref[abs(w)] += 1
+    return {
+        'self.vars': dict(vars_),
+        'self._level_to_var': {k: v for v, k in vars_.items()},
+        'self._succ': succ,
+        'self._pred': {t: u for u, t in succ.items()},
+        'self._ref': ref,
+        'self._ite_table': {(2, 1, -1): 2},
+        'self._min_free': max(succ) + 1,
+    }
+
+
+def undeclare_model(P, R):
+    """`undeclare_vars(*names)` over small managers with nodes at some
+    levels: every subset of the variables (and the call without
+    arguments).  Compared with C14: exactly the requested unused
+    variables go (all unused ones when none is named), used or unknown
+    ones are refused and nothing changes, the remaining variables keep
+    their relative order on levels 0..n-1, every node moves with its
+    variable, the four tables stay inverse pairs, the computed table is
+    reset."""
+    import itertools
+    f = P.func('dd.bdd.BDD.undeclare_vars')
+    stubs = method_stubs(P, 'dd.bdd.BDD', ['level_of_var', 'var_at_level'])
+    var = f.node.args.vararg.arg if f.node.args.vararg else None
+    if var is None:
+        raise AnalysisError('undeclare_vars no longer takes *names')
+    # (declaration order differs from level order in the second manager,
+    # as after a swap)
+    managers = [
+        ({'a': 0, 'b': 1, 'c': 2, 'd': 3},
+         {2: (3, -1, 1), 3: (1, -1, 2)}),            # nodes on d, b
+        ({'b': 1, 'a': 0, 'd': 3, 'c': 2},
+         {2: (2, -1, 1), 3: (0, 2, 1)}),             # nodes on c, a
+        ({'a': 0, 'b': 1}, {}),
+        # two nodes with the same successors on adjacent levels, in
+        # both orders of the node table: moving both must not make one
+        # overwrite the other's entry in the unique table
+        ({'a': 0, 'b': 1, 'c': 2, 'd': 3},
+         {2: (3, -1, 1), 3: (2, -1, 1)}),
+        ({'a': 0, 'b': 1, 'c': 2, 'd': 3},
+         {3: (2, -1, 1), 2: (3, -1, 1)}),
+    ]
+    problems = dict()
+    n_models = 0
+    for vars_, nodes in managers:
+        names = sorted(vars_)
+        used_levels = {t[0] for t in nodes.values()}
+        unused = {v for v, k in vars_.items() if k not in used_levels}
+        requests = [()] + [
+            c for r in range(1, len(names) + 1)
+            for c in itertools.combinations(names, r)] + [('zz',)]
+        for req in requests:
+            n_models += 1
+            env = _manager_state(vars_, nodes)
+            env[var] = tuple(req)
+            before = _snapshot(env)
+            try:
+                out, m = interp.run_function(f.node, env, stubs)
+            except interp.Unknown as e:
+                R.undecided('R-INVMAP', f.qualname,
+                            'undeclare_vars model', str(e))
+                return
+            what = (f'levels {vars_}, nodes at levels '
+                    f'{sorted(used_levels)}, undeclare_vars{req}')
+            after = _snapshot(m.env)
+            legal = all(x in unused for x in req)
+            if out[0] == 'raise':
+                if legal:
+                    problems.setdefault('refuses-valid', what + (
+                        ': refused although every named variable is '
+                        'unused'))
+                elif after != before:
+                    problems.setdefault('raise-after-write', what + (
+                        ': refused, but the tables were changed before'))
+                continue
+            if not legal:
+                problems.setdefault('accepts-invalid', what + (
+                    ': accepted although a named variable is unknown or '
+                    'still has nodes'))
+                continue
+            gone = set(req) if req else set(unused)
+            keep = [v for v in sorted(vars_, key=vars_.get)
+                    if v not in gone]
+            want_vars = {v: k for k, v in enumerate(keep)}
+            old2new = {vars_[v]: want_vars[v] for v in keep}
+            old2new[len(vars_)] = len(keep)
+            v2 = m.env['self.vars']
+            l2 = m.env['self._level_to_var']
+            s2 = m.env['self._succ']
+            p2 = m.env['self._pred']
+            if out[1] != gone:
+                problems.setdefault('removed-set', what + (
+                    f': returns {out[1]} instead of {gone}'))
+            if v2 != want_vars:
+                problems.setdefault('compaction', what + (
+                    f': the remaining variables get the levels {v2}; '
+                    f'keeping their relative order gives {want_vars}'))
+                continue
+            if l2 != {k: v for v, k in v2.items()}:
+                problems.setdefault('rebuild-l2v', what + (
+                    f': _level_to_var = {l2} is not the inverse of vars '
+                    f'= {v2}'))
+            want_succ = {u: (old2new[t[0]], t[1], t[2])
+                         for u, t in before['self._succ'].items()}
+            if s2 != want_succ:
+                problems.setdefault('nodes', what + (
+                    f': the nodes are at {s2}; moving each with its '
+                    f'variable gives {want_succ}'))
+            if p2 != {t: u for u, t in s2.items()}:
+                problems.setdefault('rebuild-pred', what + (
+                    ': the unique table is not the inverse of the node '
+                    f'table afterwards ({p2})'))
+            if m.env.get('self._ite_table'):
+                problems.setdefault('no-reset', what + (
+                    ': the computed table keeps entries made for the old '
+                    'levels'))
+    keymap = {
+        'refuses-valid': ('R-INVMAP', 'refuses-valid', 'vrs'),
+        'accepts-invalid': ('R-INVMAP', 'accepts-invalid', 'vrs'),
+        'raise-after-write': ('R-RAW', 'raise-after-write',
+                              'undeclare_vars'),
+        'removed-set': ('R-INVMAP', 'removed-set', 'rm_vars'),
+        'compaction': ('R-INVMAP', 'compaction', 'new_levels'),
+        'rebuild-l2v': ('R-INVMAP', 'rebuild', '_level_to_var'),
+        'nodes': ('R-INVMAP', 'vars-renumbered', 'vars'),
+        'rebuild-pred': ('R-INVMAP', 'rebuild', '_pred'),
+        'no-reset': ('R-INVAL', 'no-reset', '_ite_table'),
+    }
+    for k, msg in sorted(problems.items()):
+        rule, sub, construct = keymap[k]
+        R.violation(rule, sub, f.qualname, construct, msg,
+                    unit=f.unit.rel, line=f.lineno)
+    if not problems:
+        R.holds('R-INVMAP', f.qualname,
+                f'undeclare_vars model ({n_models} requests on '
+                f'{len(managers)} managers): removed set, compaction in level order, '
+                'nodes moved with their variables, tables inverse, '
+                'computed table reset, refusals leave no trace')
